@@ -77,35 +77,35 @@ def _compute_thl_try_speciation(
     min_ltr = table.entry()
     min_rtr = table.entry()
 
+    # The cost of the losses between root_species and the species of a child
+    # depends on that species, so it must be part of the minimized value
     for left_child in left_species.traverse():
+        dist_cost = loss_cost * (species_lca.distance(root_species, left_child) - 1)
         min_ltl.update(
             Candidate(
-                table[left_node][left_child].value(),
+                table[left_node][left_child].value() + dist_cost,
                 left_child,
             )
         )
         min_rtl.update(
             Candidate(
-                table[right_node][left_child].value(),
+                table[right_node][left_child].value() + dist_cost,
                 left_child,
             )
         )
 
     for right_child in right_species.traverse():
-        min_ltr.update(Candidate(table[left_node][right_child].value(), right_child))
-        min_rtr.update(Candidate(table[right_node][right_child].value(), right_child))
+        dist_cost = loss_cost * (species_lca.distance(root_species, right_child) - 1)
+        min_ltr.update(
+            Candidate(table[left_node][right_child].value() + dist_cost, right_child)
+        )
+        min_rtr.update(
+            Candidate(table[right_node][right_child].value() + dist_cost, right_child)
+        )
 
     def spe_combinator(left, right):
         return Candidate(
-            spe_cost
-            + left.value
-            + right.value
-            + loss_cost
-            * (
-                species_lca.distance(root_species, left.info)
-                + species_lca.distance(root_species, right.info)
-                - 2
-            ),
+            spe_cost + left.value + right.value,
             MappingInfo(left.info, right.info),
         )
 
@@ -137,11 +137,20 @@ def _compute_thl_try_duplication_transfer(
 
     for other_species in species_lca.tree.traverse():
         if species_lca.is_ancestor_of(root_species, other_species):
+            # The cost of the losses between root_species and other_species
+            # depends on other_species, so it must be part of the minimized value
+            dist_cost = loss_cost * species_lca.distance(root_species, other_species)
             min_ltc.update(
-                Candidate(table[left_node][other_species].value(), other_species)
+                Candidate(
+                    table[left_node][other_species].value() + dist_cost,
+                    other_species,
+                )
             )
             min_rtc.update(
-                Candidate(table[right_node][other_species].value(), other_species)
+                Candidate(
+                    table[right_node][other_species].value() + dist_cost,
+                    other_species,
+                )
             )
         elif not species_lca.is_ancestor_of(other_species, root_species):
             min_lts.update(
@@ -154,40 +163,21 @@ def _compute_thl_try_duplication_transfer(
     # Try mapping as a duplication
     def dup_combinator(left, right):
         return Candidate(
-            dup_cost
-            + left.value
-            + right.value
-            + loss_cost
-            * (
-                species_lca.distance(root_species, left.info)
-                + species_lca.distance(root_species, right.info)
-            ),
+            dup_cost + left.value + right.value,
             MappingInfo(left.info, right.info),
         )
 
     # Try mapping as a horizontal transfer
-    def hgt_l_combinator(left, right):
+    def hgt_combinator(left, right):
         return Candidate(
-            hgt_cost
-            + left.value
-            + right.value
-            + loss_cost * species_lca.distance(root_species, left.info),
-            MappingInfo(left.info, right.info),
-        )
-
-    def hgt_r_combinator(left, right):
-        return Candidate(
-            hgt_cost
-            + left.value
-            + right.value
-            + loss_cost * species_lca.distance(root_species, right.info),
+            hgt_cost + left.value + right.value,
             MappingInfo(left.info, right.info),
         )
 
     table[root_node][root_species].update(
         *min_ltc.combine(min_rtc, dup_combinator),
-        *min_lts.combine(min_rtc, hgt_r_combinator),
-        *min_ltc.combine(min_rts, hgt_l_combinator),
+        *min_lts.combine(min_rtc, hgt_combinator),
+        *min_ltc.combine(min_rts, hgt_combinator),
     )
 
 
